@@ -213,6 +213,30 @@ func genC02(e *emitter, tier string, seed uint64) map[string]interface{} {
 							if bad != "" {
 								e.fail(idx, fmt.Sprintf("decode_fields:v%d:%s", version, strings.ReplaceAll(bad, " ", "_")), fmt.Sprintf("decoded %s differs from the layout's value (type=%d verify=%d gzip=%d reserve=%d)", bad, typ, verify, gzip, reserve))
 							}
+							// the streaming decoder must report the same packet, wherever the ring wraps: 3 random geometries per frame,
+							// and for one frame per version x type EVERY offset of an exactly-fitting ring
+							geos := [][2]int{{len(frame) + rg.intn(4), -1}, {16, -1}, {64, -1}}
+							if verify == 1 && gzip == 0 && reserve == 0 && k == 0 {
+								for pre := 0; pre <= len(frame); pre++ {
+									geos = append(geos, [2]int{len(frame), pre})
+								}
+							}
+							for _, geo := range geos {
+								capacity, pre := geo[0], geo[1]
+								if pre < 0 {
+									pre = rg.intn(capacity + 1)
+								}
+								var gzs []gzEntry
+								if gzip == 1 {
+									gzs = []gzEntry{gzEntryFor(f.body)}
+								}
+								sr := runStream(version, protocol.CodecJSON, capacity, pre, []int{len(frame)}, frame)
+								line := fmt.Sprintf("stream v=%d codec=2 cap=%d pre=%d chunks=%d hex=%s%s", version, capacity, pre, len(frame), hexSpec(frame).String(), gztToken(gzs))
+								i3 := e.op(line, sr.text, "decoder/stream", true)
+								if len(sr.packets) != 1 || sr.packets[0] != showPacket(q) {
+									e.fail(i3, fmt.Sprintf("decode_accepts_stream:v%d", version), fmt.Sprintf("streaming decode of a spec frame (cap=%d pre=%d) differs from the layout's values", capacity, pre))
+								}
+							}
 							// every strict prefix of a valid frame is rejected by the one-shot decoder
 							if tcase%7 == 0 || thorough {
 								for cut := 0; cut < len(frame); cut++ {
